@@ -2,7 +2,9 @@ SPECIFICATION LSpec
 CONSTANTS
   Writers = {w1, w2}
   Readers = {r1, r2}
+  AscReaders = {r2}
+  Known = @KNOWN@
   ReadLatch = @READLATCH@
   MaxV = 3
-INVARIANTS NoTornRead Exclusion
+INVARIANTS NoTornRead CommittedValues Exclusion
 CHECK_DEADLOCK FALSE
